@@ -11,20 +11,24 @@ CLAIMED = {
              "Quick tier (component level, each obligation on the function that establishes it): swap_impact_amount_with_cap equals an exact "
              "integer reference for every u8 pool balance, side, price pair and i8 impact value (positive amount = floor(value/max price) capped by "
              "the impact pool balance, capped difference value exact, negative amount = ceil(|value|/min price), failure exactly on zero prices / "
-             "unrepresentable intermediates); FeeParams::apply_fees splits every amount into after-fee + pool fee + receiver fee that add up exactly "
-             "(u8 with discount, u16 without); BaseMarketExt::checked_apply_delta with Delta::new_both_sides / new_one_side / PoolExt::apply_delta_amount "
-             "adds each signed delta to exactly the named side of the liquidity pool and of the virtual inventory, or fails without a result (u8, u16). "
-             "Thorough tier (whole action): Swap::try_new + Swap::execute end to end on an ALL-symbolic u8 market (every pool, limit, factor, open interest, "
-             "virtual inventory absent/present, fees with discount, impact factors, side, amount, six prices; impact exponent 0 or 1.0): on Ok the sum "
-             "liquidity + swap-impact + claimable-fee of token-in grows by exactly the input amount, the same sum of token-out shrinks by exactly the "
-             "reported output, each of the three pools moves by exactly the reported fee / impact amounts, the virtual inventory follows the liquidity "
+             "unrepresentable intermediates); apply_swap_impact_value_with_cap moves exactly that amount out of / into exactly that side of the impact "
+             "pool and leaves the pool unchanged on failure; FeeParams::apply_fees splits every amount into after-fee + pool fee + receiver fee that add "
+             "up exactly (u8 with discount, u16 without); BaseMarketExt::checked_apply_delta with Delta::new_both_sides / new_one_side / "
+             "PoolExt::apply_delta_amount adds each signed delta to exactly the named side of the liquidity pool and of the virtual inventory, or "
+             "fails without a result (u8, u16). "
+             "Thorough tier (whole action): Swap::try_new + Swap::execute end to end on an ALL-symbolic u8 market (every pool, limit, factor, open "
+             "interest, virtual inventory absent/present, fees with discount, impact factors, side, amount, six prices; impact exponent 0 or 1.0): on Ok "
+             "the sum liquidity + swap-impact + claimable-fee of token-in grows by exactly the input amount, the same sum of token-out shrinks by exactly "
+             "the reported output, each of the three pools moves by exactly the reported fee / impact amounts, the virtual inventory follows the liquidity "
              "pool, and every other field of the market is unchanged; on Err the whole market is bit-identical and no mutable accessor was requested "
              "(atomicity). A cheaper whole-swap harness on a lean state (no open interest, no virtual inventory) decides the same clauses.",
         note="Trusted: kani-compiler + CBMC/CaDiCaL; the VMarket environment (accessors return fields; VPool::checked_apply_delta is checked add/sub). "
-             "The conservation and atomicity clauses for the whole action are decided only in the thorough tier (one run is 30-50 min, 10 GB): the quick tier "
-             "does not execute Swap::try_execute, so a defect in its glue code is seen by the thorough tier only. Bounds: 8-bit instantiation (16-bit for two "
-             "components); impact exponents other than 0 and 1.0 and the u64/u128 MulDiv impls are outside the claim; 'reachable by deposits, withdrawals and "
-             "swaps' is over-approximated by ALL states (one step from any state). The u16 instance of the cap harness does not finish (tier=experimental).",
+             "The conservation and atomicity clauses of the whole action are decided only in the thorough tier (one run is 30-50 min, 10 GB): the quick tier "
+             "does not execute Swap::try_execute, so a defect in its glue code is seen by the thorough tier only (hand mutations there: price pick flipped, "
+             "liquidity delta side flipped, pool fee not booked, validation moved after the first write -- all four refuted by the lean whole-swap harness). "
+             "Bounds: 8-bit instantiation (16-bit for two components); impact exponents other than 0 and 1.0 and the u64/u128 MulDiv impls are outside the claim; "
+             "'reachable by deposits, withdrawals and swaps' is over-approximated by ALL states (one step from any state). The u16 instance of the cap harness "
+             "does not finish (tier=experimental).",
         technique="Kani/CBMC symbolic execution of the real swap code at 8/16-bit width: exact component references (quick), whole Swap::execute on an all-symbolic market (thorough)",
         design="C04"),
     "C05": dict(
@@ -35,8 +39,9 @@ CLAIMED = {
              "(impact-pool decrease valued at the prices the code uses), exact in 32-bit integers; moreover out == floor((in - fees [+ amount taken from the "
              "token-in impact pool | - negative impact amount]) * price_in.min / price_out.max) [+ positive impact amount], fees <= in, and with zero fee and zero "
              "impact out == floor(in*price_in.min/price_out.max).",
-        note="Trusted: kani-compiler + CBMC/CaDiCaL; VMarket environment. The value bound itself is decided only by the thorough tier (whole action, 30-50 min); the quick "
-             "tier decides the component the bound rests on. 8-bit instantiation; impact exponent 0 or 1.0; u64/u128 MulDiv impls outside the claim.",
+        note="Trusted: kani-compiler + CBMC/CaDiCaL; VMarket environment. The value bound itself is decided only by the thorough tier (whole action, 30-50 min, 10 GB); the quick "
+             "tier decides the component the bound rests on. 'Funded positive impact' is read off the two swap-impact pools: what leaves the token-out pool at price_out.max plus, "
+             "when that pool caps the payment, what leaves the token-in pool at price_in.min. 8-bit instantiation; impact exponent 0 or 1.0; u64/u128 MulDiv impls outside the claim.",
         technique="Kani/CBMC symbolic execution of the real swap code at 8-bit width with exact wider-integer oracles",
         design="C04"),
     "C06": dict(
@@ -48,17 +53,22 @@ CLAIMED = {
              "quick, <= 127 in thorough); LiquidityMarketExt::pool_value equals liquidity value at the maximised/minimised prices + pool share of pending borrowing "
              "fees - net pnl capped per side by the max-pnl factor of the requested kind - position-impact-pool value after pending distribution, compared "
              "with an exact reference in three slices (liquidity+impact pool; open interest / capped pnl; borrowing fees) and all-symbolic in thorough. "
-             "Thorough tier (whole actions, u8): the first Deposit::execute into an empty market mints floor(net_long*min_price/divisor) + "
-             "floor(net_short*min_price/divisor) with exact pool bookkeeping; one Deposit::execute (long- and short-token variants) from any no-open-interest "
-             "state mints at most supply*(deposited value at min prices + impact paid out of the impact pool)/maximised pool value (no dilution of other LPs), "
-             "books every token exactly and leaves the minimised pool value <= maximised before + deposited + funded; one Withdrawal::execute pays (outputs and "
-             "receiver fees at max prices) at most the burned share of the minimised pool value, with exact amounts and bookkeeping. Together with the conversion "
-             "lemma these give: deposit then withdraw-all returns at most the deposited value plus impact funded by the impact pool.",
-        note="Trusted: kani-compiler + CBMC/CaDiCaL; VMarket environment. The round-trip clause is decided compositionally (deposit leg, withdraw leg, conversion lemma); the direct "
-             "deposit-then-withdraw harnesses exhaust memory in this environment and are tier=experimental. Whole-action harnesses assume no open interest, clocks at 0 s, "
-             "impact exponent 1.0. Excluded by design (stated as an assumption): a market with zero supply but a non-empty pool, whose first depositor owns the residue. "
-             "Positive impact on deposit is a bonus paid out of the swap impact pool and is accounted on the right-hand side. 8-bit instantiation only; u16 conversion harness "
-             "does not finish (experimental).",
-        technique="Kani/CBMC symbolic execution of the real deposit/withdraw/pool-value code at 8-bit width; exact references, per-leg obligations composed by a proved conversion lemma",
+             "Thorough tier (whole actions, u8, no open interest): the first Deposit::execute into an empty market mints floor(net_long*min_price/divisor) + "
+             "floor(net_short*min_price/divisor) with exact pool bookkeeping; one long-token Deposit::execute from any state mints exactly "
+             "floor(supply * net value at min price / maximised pool value) + floor(supply * positive impact value / maximised pool value), where the positive impact "
+             "amount is exactly what left the other token's swap impact pool, and books every token exactly; one Withdrawal::execute pays exactly "
+             "floor(floor(mtv*side_value/total_value)/max price) per token with mtv = floor(minimised pool value * burned / supply), and books every token exactly. "
+             "From these exact formulas: neither leg lowers the value per market token of the remaining supply (minted*PVmax <= supply*(value in + funded impact); "
+             "paid value at max prices <= burned share of PVmin), and with the conversion lemma a deposit followed by withdraw-all returns at most the deposited value "
+             "(min prices) plus the positive impact funded by the swap impact pool.",
+        note="Trusted: kani-compiler + CBMC/CaDiCaL; VMarket environment; the closed form PV = L*pL + S*pS for markets without open interest (tied to the real pool_value by the "
+             "pool_value harnesses); the two-line arithmetic that turns the exact leg formulas into the inequalities (written out in harness/liq/src/c06_liquidity.rs). "
+             "The direct deposit-then-withdraw harnesses exhaust memory and the inequality-only leg harness did not finish in 90 min; both kept as tier=experimental. "
+             "The short-token deposit leg is the same code path with the side flag flipped; its run was killed by memory exhaustion of the shared machine and it is "
+             "kept experimental until it has passed once. The deposit-leg harness needs ~22 GB resident / a 58 GB address-space cap and ~80 min. "
+             "Excluded by design (stated as an assumption): a market with zero supply but a non-empty pool, whose first depositor owns the residue; positive impact on "
+             "deposit is a bonus paid out of the swap impact pool and is accounted on the right-hand side. Whole-action harnesses: no open interest, clocks at 0 s, impact "
+             "exponent 1.0. 8-bit instantiation only; the u16 conversion harness does not finish (experimental).",
+        technique="Kani/CBMC symbolic execution of the real deposit/withdraw/pool-value code at 8-bit width; exact replica references per leg, composed by a proved conversion lemma",
         design="C06"),
 }
